@@ -542,10 +542,43 @@ def pruner_answers(ctx):
     return out
 
 
+def surf_consistency_scope(ctx):
+    """a range probe encodes its literal in one key lane; a field whose values use several numeric kinds within a segment
+    therefore gets no range filter at all (the caller falls back to every zone) - which only works if the kind check looks
+    at the whole segment"""
+    b = Builder(ctx, "filter-zone_surf_filter-{impl#0}-build_all_filtered.", "ZoneSurfFilter::build_all_filtered", {})
+    E, q = b.E, ctx.q
+    r = b.mk("B-9", "ZoneSurfFilter::build_all_filtered: the numeric-kind consistency check that decides whether a field gets a range "
+                    "filter is made over all zone plans of the segment (the function's `zone_plans` argument), not over a single zone "
+                    "or a part of them - per-zone tries in different key lanes would make a probe skip zones that hold matches")
+    out = [b.results["B-9"]]
+    if not r:
+        return out
+    calls = oblig.events(E, r"is_field_numeric_consistent$")
+    if not oblig.need_anchor(r, calls, "is_field_numeric_consistent in build_all_filtered"):
+        return out
+    r.nontrivial = True
+    for e in calls:
+        res, _ = q.check(e.reach, domain=E.domain)
+        r.queries += 1
+        if res != z3.sat:
+            continue
+        a = sym.describe(e.args[0]) if e.args else ""
+        src = E.trace(e.args[0], e.env, depth=8) | {a} if e.args else set()
+        if a != "arg:zone_plans" and not (any(x == "arg:zone_plans" for x in src) and not re.search(r"from_ref|::get|split|first|last|\[", " ".join(src))):
+            r.status = "violated"
+            r.witness = {"what": f"the consistency check is made over `{a[:80]}` instead of all zone plans of the segment: a field mixing integers and "
+                                 "fractions across zones gets per-zone tries in different key lanes, and a range probe (one lane) rules out zones that hold matching rows",
+                         "span": f"{e.span[0]}:{e.span[1]}" if e.span else None, "call": "is_field_numeric_consistent", "path": [], "model": {}}
+            return out
+    return out
+
+
 def obligations(ctx):
     q = ctx.q
     out = []
     out += pruner_answers(ctx)
+    out += surf_consistency_scope(ctx)
     out += calendar_builder(ctx)
     out += not_zones(ctx)
     out += temporal_minmax(ctx)
